@@ -183,6 +183,29 @@ lon_exact!(probe_nl30_odd_z0_4, 30, true, false, 0, 4);
 harness! {
     #[kani::unwind(60)]
     #[kani::stub(alloc::fmt::format, crate::stubs::fmt_stub)]
+    /// the decoder's NL table against the closed formula of DO-260B, observed through the public
+    /// reference decoder: for EVERY even-report cell latitude in [-90, 90] (15 x 2^17 points per
+    /// hemisphere, 4.6e-5 degrees apart) a report with longitude count 2^16 decoded against the
+    /// reference (that latitude, 1 degree east) comes back at longitude 180 / NL(lat)
+    fn nl_table_vs_formula(s) {
+        let e = s.i64();
+        vassume!(e >= -15 * P17 && e <= 15 * P17);
+        let lat = centre(6.0, e, 60);
+        vassume!(!nl_borderline(lat));
+        let msg = report(false, e.rem_euclid(P17) as u32, 65536);
+        let r = rs1090::decode::cpr::airborne_position_with_reference(&msg, lat, 1.0);
+        vcover!(r.is_some() && e < 0);
+        vassert!(r.is_some(), "reference decoding at the cell's own latitude succeeds");
+        if let Some(p) = r {
+            vassert!(close(p.latitude, lat), "latitude is the cell centre");
+            vassert!(close(p.longitude * nl_ref(lat) as f64, 180.0), "number of longitude zones equals NL(lat) of the closed formula");
+        }
+    }
+}
+
+harness! {
+    #[kani::unwind(60)]
+    #[kani::stub(alloc::fmt::format, crate::stubs::fmt_stub)]
     /// a pair with the same parity never yields a position (all counts, both parities)
     fn same_parity_none(s) {
         let odd = s.bool();
@@ -216,6 +239,7 @@ harness! {
 }
 
 pub const BASE: &[(&str, fn(&mut crate::src::Tape))] = &[
+    (concat!(module_path!(), "::nl_table_vs_formula"), nl_table_vs_formula::replay),
     (concat!(module_path!(), "::same_parity_none"), same_parity_none::replay),
     (concat!(module_path!(), "::range_any_pair"), range_any_pair::replay),
 ];
